@@ -73,7 +73,7 @@ func DefaultConfig() Config {
 		Hosts: 3, NumConns: 1, BackendMax: primitive.ProtocolVersion4,
 		ProxyVersion: primitive.ProtocolVersion4, ProxyMax: primitive.ProtocolVersion4,
 		Heartbeat: 30 * time.Second, IdleTimeout: 60 * time.Second, ConnectTimeout: 10 * time.Second,
-		ReconnBase: 2 * time.Second, ReconnMax: 10 * time.Minute,
+		ReconnBase: 2 * time.Second, ReconnMax: 30 * time.Second,
 		WTask: 8, WNet: 4, WPeer: 4, WWork: 2, WClock: 0, Sticky: 0, FragProb: 100, MaxSteps: 400000,
 	}
 }
@@ -109,9 +109,14 @@ type World struct {
 	stop                bool
 
 	seq      uint64
+	tokenCtr int
 	start    time.Time
 	connID   int
 	lastTask *simrt.Task
+	winSteps map[*simrt.Task]int
+	winCount int
+	spinTask *simrt.Task
+	spinRuns int
 
 	Log     []string
 	logHash uint64
@@ -133,6 +138,8 @@ type World struct {
 	FaultActs     func() int // number of enabled fault actions (scenario-owned)
 	DoFault       func(i int)
 	ControlConns  []*BackendConn
+	ClockOn       bool // early clock advances allowed (off during boot and drain)
+	ClockBudget   int  // number of early clock advances left in this run
 }
 
 type ProxyInst struct {
@@ -556,7 +563,7 @@ func (w *World) StepOnce(maxIdle time.Duration) bool {
 		wt[actFault] = 1
 	}
 	any := wt[0]+wt[1]+wt[2]+wt[3]+wt[4] > 0
-	if any && w.Cfg.WClock > 0 {
+	if any && w.Cfg.WClock > 0 && w.ClockOn && w.ClockBudget > 0 {
 		wt[actClock] = w.Cfg.WClock
 	}
 	if !any {
@@ -587,6 +594,7 @@ func (w *World) StepOnce(maxIdle time.Duration) bool {
 		}
 		w.noteSwitch(t)
 		w.lastTask = t
+		w.spinCheck(t)
 		w.S.Step(t)
 	case actNet:
 		a := nets[w.C.Choose("net", len(nets))]
@@ -610,9 +618,59 @@ func (w *World) StepOnce(maxIdle time.Duration) bool {
 		w.DoFault(w.C.Choose("fault", nFault))
 	case actClock:
 		w.Stat("clock.early")
-		w.S.Idle(maxIdle)
+		w.ClockBudget--
+		jump := []time.Duration{time.Millisecond, 100 * time.Millisecond, time.Second, 11 * time.Second, 35 * time.Second}[w.C.Choose("jump", 5)]
+		if jump > maxIdle {
+			jump = maxIdle
+		}
+		w.S.Idle(jump)
 	}
 	return true
+}
+
+// spinCheck is the livelock detector. Steps are counted in windows of spinWindow task steps;
+// when a single task took >= 90% of a window it is probably busy-waiting, and since a real busy
+// loop consumes wall-clock time the clock is advanced to the next timer (otherwise simulated
+// time would stand still while it spins and the timers that could end the wait would never
+// fire). A task that dominates spinLimit consecutive windows although every pending timer had
+// its chance to fire is reported as a livelock.
+const (
+	spinWindow = 2000
+	spinLimit  = 25
+)
+
+func (w *World) spinCheck(t *simrt.Task) {
+	if w.winSteps == nil {
+		w.winSteps = map[*simrt.Task]int{}
+	}
+	w.winSteps[t]++
+	w.winCount++
+	if w.winCount < spinWindow {
+		return
+	}
+	var top *simrt.Task
+	for k, v := range w.winSteps {
+		if top == nil || v > w.winSteps[top] || (v == w.winSteps[top] && k.ID < top.ID) {
+			top = k
+		}
+	}
+	share := w.winSteps[top]
+	w.winSteps = map[*simrt.Task]int{}
+	w.winCount = 0
+	if share*10 < spinWindow*9 {
+		w.spinRuns = 0
+		return
+	}
+	if w.spinTask != top {
+		w.spinTask, w.spinRuns = top, 0
+	}
+	w.spinRuns++
+	w.Stat("clock.forced_by_spin")
+	w.S.Idle(time.Hour)
+	if w.spinRuns >= spinLimit {
+		w.Violate("livelock", "livelock: "+top.Name+" spinning in "+top.OpLabel(),
+			fmt.Sprintf("task %s took >=90%% of %d consecutive windows of %d scheduler steps (last op %s) while simulated time was advanced to every pending timer: it is busy-waiting on a condition that never becomes true", top, spinLimit, spinWindow, top.OpLabel()))
+	}
 }
 
 // RunUntil steps the world until cond holds, a violation stops the run, the step budget or
